@@ -10,6 +10,8 @@
        voluntary_ctxt_switches:\tn   nonvoluntary_ctxt_switches:\tn
    Numbers are held as the digit strings the kernel printed. *)
 From PV Require Export C06.Model.
+From Coq Require Export Qabs Qminmax.
+Open Scope Z_scope.
 
 (* ------------------------------------------------------------------ stat *)
 Record kstat := {
@@ -53,6 +55,17 @@ Fixpoint spec_status (tbl : list (Z * bytes)) (c : Z) : option bytes :=
   | (c', v) :: r => if c =? c' then Some v else spec_status r c
   end.
 
+(* what status() answers for a state token: the documented constant of a documented
+   letter; psutil's '?' for anything else (not fixed by the property text) *)
+Definition spec_status_tok (t : bytes) : bytes :=
+  match t with
+  | [c] => match spec_status documented_statuses c with Some s => s | None => [63] end
+  | _ => [63]
+  end.
+
+(* N of proc(5): how many fields the record has, (1) pid and (2) comm included *)
+Definition nfields (r : kstat) : nat := (length (k_after r) + 2)%nat.
+
 (* seconds = ticks / tick rate;  start = starttime / tick rate + boot time *)
 Definition secs (clk : positive) (ticks : bytes) : Q := dec_val ticks # clk.
 Definition spec_cpu_times (clk : positive) (ut stm cut cst : bytes) (blkio : option bytes) : list Q :=
@@ -74,9 +87,10 @@ Definition glibc_makedev (major minor : Z) : Z :=
         (Z.shiftl (Z.land minor 4294967040) 12).
 
 (* a device node of the /dev listing: its path and (major, minor) *)
-Record devnode := { d_path : bytes; d_major : Z; d_minor : Z }.
+Record devnode := { d_path : bytes; d_major : Z; d_minor : Z;
+                    d_gone : bool  (* unlinked between the directory scan and os.stat() *) }.
 Definition dev_entry (d : devnode) : bytes * option Z :=
-  (d_path d, Some (glibc_makedev (d_major d) (d_minor d))).
+  (d_path d, if d_gone d then None else Some (glibc_makedev (d_major d) (d_minor d))).
 (* the terminal of a task whose tty is (major, minor): the listed node with that
    device number (the last one if several paths name the same device) *)
 Fixpoint spec_terminal (major minor : Z) (devs : list devnode) (acc : option bytes) : option bytes :=
@@ -84,10 +98,19 @@ Fixpoint spec_terminal (major minor : Z) (devs : list devnode) (acc : option byt
   | [] => acc
   | d :: r =>
     spec_terminal major minor r
-      (if (d_major d =? major) && (d_minor d =? minor) then Some (d_path d) else acc)
+      (if negb (d_gone d) && (d_major d =? major) && (d_minor d =? minor) then Some (d_path d) else acc)
   end.
 Definition wf_dev (d : devnode) : bool :=
   (1 <=? d_major d) && (d_major d <? 4096) && (0 <=? d_minor d) && (d_minor d <? 1048576).
+
+(* the nodes psutil looks at: entries of /dev whose name starts with "tty", then the
+   entries of /dev/pts that are not dot-files, each under its full path; [d_path] of a
+   directory entry is its name *)
+Definition at_dir (dir : bytes) (d : devnode) : devnode :=
+  {| d_path := dir ++ d_path d; d_major := d_major d; d_minor := d_minor d; d_gone := d_gone d |}.
+Definition listed_nodes (dev pts : list devnode) : list devnode :=
+  map (at_dir (bs "/dev/")) (filter (fun d => prefixb (bs "tty") (d_path d)) dev)
+  ++ map (at_dir (bs "/dev/pts/")) (filter (fun d => match d_path d with 46 :: _ => false | _ => true end) pts).
 
 (* ---------------------------------------------------------------- threads *)
 Record kthread := {
@@ -116,20 +139,43 @@ Fixpoint spec_trows (clk : positive) (ts : list kthread) : list trow :=
   end.
 Definition any_gone (ts : list kthread) : bool := existsb t_gone ts.
 
-(* ---------------------------------------------------------------- ppid_map *)
-Record kproc := { p_pid : Z; p_stat : kstat; p_gone : bool }.
-Definition proc_entry (p : kproc) : Z * tfile :=
-  (p_pid p, if p_gone p then TGone else TContent (k_stat (p_stat p))).
-Definition wf_kproc (p : kproc) : bool :=
-  wf_kstat (p_stat p) && match fld 4 (p_stat p) with Some d => is_dec d | None => false end.
-Fixpoint spec_ppid_map (ps : list kproc) : list (Z * Z) :=
-  match ps with
+(* ------------------------------------------------------ /proc listing, ppid_map *)
+Inductive pstate := PPresent | PGone | PDenied.   (* stat readable | process vanished | EACCES *)
+Record kproc := { p_name : bytes;      (* directory name: the pid in decimal *)
+                  p_stat : kstat; p_state : pstate }.
+(* an entry of /proc: a process, or something else (self, stat, sys, ...: not all digits) *)
+Inductive kentry := KProc (p : kproc) | KOther (name : bytes) (f : tfile).
+Definition entry_of (e : kentry) : bytes * tfile :=
+  match e with
+  | KProc p => (p_name p, match p_state p with
+                          | PPresent => TContent (k_stat (p_stat p))
+                          | PGone => TGone
+                          | PDenied => TDenied
+                          end)
+  | KOther n f => (n, f)
+  end.
+Definition wf_kentry (e : kentry) : bool :=
+  match e with
+  | KProc p => is_dec (p_name p) && wf_kstat (p_stat p)
+               && match fld 4 (p_stat p) with Some d => is_dec d | None => false end
+  | KOther n _ => negb (is_dec n)
+  end.
+(* one pair per process whose stat file could be read *)
+Fixpoint spec_ppid_map (es : list kentry) : list (Z * Z) :=
+  match es with
   | [] => []
-  | p :: r => if p_gone p then spec_ppid_map r
-              else match fld 4 (p_stat p) with
-                   | Some d => (p_pid p, dec_val d) :: spec_ppid_map r
-                   | None => spec_ppid_map r
-                   end
+  | KProc p :: r =>
+    match p_state p, fld 4 (p_stat p) with
+    | PPresent, Some d => (dec_val (p_name p), dec_val d) :: spec_ppid_map r
+    | _, _ => spec_ppid_map r
+    end
+  | KOther _ _ :: r => spec_ppid_map r
+  end.
+Fixpoint spec_pids (es : list kentry) : list Z :=
+  match es with
+  | [] => []
+  | KProc p :: r => dec_val (p_name p) :: spec_pids r
+  | KOther _ _ :: r => spec_pids r
   end.
 
 (* ------------------------------------------------------------------ status *)
@@ -196,3 +242,16 @@ Definition spec_ctx (r : kstatus) : outcome (Z * Z) :=
   end.
 (* comm of a task is at most TASK_COMM_LEN - 1 = 15 bytes *)
 Definition comm_len_ok (comm : bytes) : bool := (length comm <=? 15)%nat.
+
+(* ------------------------------------------------------------ /proc/stat *)
+(* "cpu ..." lines, "intr", "ctxt", then "btime <seconds>", then the rest *)
+Record kprocstat := { b_pre : list bytes; b_btime : bytes; b_post : list bytes }.
+Definition k_procstat (r : kprocstat) : bytes :=
+  klines (b_pre r) ++ line (bs "btime " ++ b_btime r) ++ klines (b_post r).
+Definition wf_kprocstat (r : kprocstat) : bool :=
+  forallb (fun l => negb (contains 10 l) && negb (prefixb (bs "btime") l)) (b_pre r) && is_dec (b_btime r).
+
+(* --------------------------------------------------- float tolerance (DESIGN 3.3) *)
+(* the correspondence run accepts an implementation float y for the exact value x when
+   |y - x| <= tol x = 2^-48 * max(1, |x|) *)
+Definition tol (x : Q) : Q := (Qmax 1 (Qabs x) * (1 # 281474976710656))%Q.
